@@ -353,7 +353,9 @@ impl<'a> Model<'a> {
                 }
                 match err {
                     Some(e) => Err(e),
-                    None => Ok(vec![R::Plural { count: "count".into(), ordinal: *ordinal, locale: eff.clone(), forms: out }]),
+                    // a literal count supplied by a reference written in `loc`'s file is classified by the
+                    // rules of `loc` (the locale being rendered), wherever the forms were inherited from
+                    None => Ok(vec![R::Plural { count: "count".into(), ordinal: *ordinal, locale: loc.to_string(), forms: out }]),
                 }
             }
         };
